@@ -5,7 +5,7 @@
    (to_u64, krc, min_rc) and proved equal to the list-level functions on the decoded p-mer, for every shipped k-mer
    configuration of width <= 32 (to_u64 panics beyond), every well-formed storage value and EVERY table. *)
 From Coq Require Import NArith List Bool Arith Lia.
-From DBG Require Import Spec.Dna Packed.KmerModel Proofs.KmerLanes Proofs.KmerOps Proofs.KmerDefaults Algo.Scan.
+From DBG Require Import Spec.Dna Packed.KmerModel Proofs.KmerLanes Proofs.KmerOps Proofs.KmerDefaults Algo.Scan Algo.Msp.
 Import ListNotations.
 Open Scope N_scope.
 
@@ -47,3 +47,30 @@ Qed.
 Theorem packed_rank_score_spec c s : In c shipped -> wf (kK c) s -> (kK c <= 32)%nat ->
   to_u64 s = Some (rank (decode (kK c) s)).
 Proof. exact (to_u64_spec c s). Qed.
+
+(* the score closure of msp_sequence (explicit table, or the default identity table = the rank itself) on the packed p-mer *)
+Definition packed_msp_score (c : kcfg) (perm : option (list N)) (rcmode : bool) (s : N) : option N :=
+  match perm with
+  | Some t => packed_perm_score c t rcmode s
+  | None =>
+      match to_u64 s with
+      | Some u =>
+          if rcmode then
+            match krc c s with
+            | Some r => match to_u64 r with Some v => Some (N.min u v) | None => None end
+            | None => None
+            end
+          else Some u
+      | None => None
+      end
+  end.
+
+Theorem packed_msp_score_spec c perm rcmode s : In c shipped -> wf (kK c) s -> (kK c <= 32)%nat ->
+  packed_msp_score c perm rcmode s = Some (msp_score (kK c) perm rcmode (decode (kK c) s)).
+Proof.
+  intros Hc Hs Hk. unfold packed_msp_score, msp_score. destruct perm as [t|].
+  - now apply packed_perm_score_spec.
+  - rewrite (to_u64_spec c s Hc Hs Hk). destruct rcmode; [|reflexivity].
+    destruct (rc_spec c s Hc Hs) as [r [E [W D]]]. rewrite E.
+    rewrite (to_u64_spec c r Hc W Hk), D. reflexivity.
+Qed.
